@@ -21,7 +21,7 @@ const ROOT_ITEMS: &str = "record R { m0: u32 }\nfn f() -> u32 { 1 }\nconst K: u3
 const A_ITEMS: &str = "record R { m1: u32 }\nrecord Q { m2: u32 }\n";
 
 /// (name, extra text of pkg, extra text of module a, function to call)
-const CASES: [(&str, &str, &str, &str); 14] = [
+const CASES: [(&str, &str, &str, &str); 17] = [
     ("variant named like its payload type", "enum E { R(R), Dot }\nfn probe() -> u32 { match E.R(R { m0: 7 }) { R(x) => x.m0, Dot => 0 } }\n", "", "probe"),
     ("variant named like the last segment of its payload path", "enum E { R(a.R), Dot }\nfn probe() -> u32 { match E.R(a.R { m1: 7 }) { R(x) => x.m1, Dot => 0 } }\n", "", "probe"),
     ("variant named like the first segment (a module) of its payload path", "enum E { a(a.R), Dot }\nfn probe() -> u32 { match E.a(a.R { m1: 7 }) { a(x) => x.m1, Dot => 0 } }\n", "", "probe"),
@@ -35,6 +35,11 @@ const CASES: [(&str, &str, &str, &str); 14] = [
     ("variants named like a function and a constant", "enum E { f(R), K(R) }\nfn probe() -> u32 { let v = match E.f(R { m0: 5 }) { f(x) => x.m0 + f(), K(y) => 0 }; v + 1 }\n", "", "probe"),
     ("in the sub-module: variant R means nothing, R means a.R, super.R means pkg.R", "", "enum E { R(R), S(super.R) }\nfn probe() -> u32 { let x = match E.R(R { m1: 3 }) { R(r) => r.m1, S(s) => 0 }; let y = match E.S(super.R { m0: 4 }) { R(r) => 0, S(s) => s.m0 }; x + y }\n", "a.probe"),
     ("imported type, variant of the same name", "import a.Q;\nenum E { Q(Q), Dot }\nfn probe() -> u32 { match E.Q(Q { m2: 7 }) { Q(x) => x.m2, Dot => 0 } }\n", "", "probe"),
+    // a local becomes visible AFTER its initialiser (seeded change C13-8: an annotated `let` was
+    // put in scope before its initialiser was resolved)
+    ("annotated let named like the function its initialiser calls", "fn probe() -> u32 { let f: u32 = f() + 6; f }\n", "", "probe"),
+    ("annotated let named like the constant its initialiser reads", "fn probe() -> u32 { let K: u32 = K + 5; K }\n", "", "probe"),
+    ("let without annotation named like the function its initialiser calls", "fn probe() -> u32 { let f = f() + 6; f }\n", "", "probe"),
     ("option and list of the type a variant is named like", "enum E { R(R?), L(List[R]) }\nfn probe() -> u32 { match E.R(Option.Some(R { m0: 7 })) { R(o) => match o { Some(r) => r.m0, None => 0 }, L(l) => 0 } }\n", "", "probe"),
 ];
 
